@@ -370,10 +370,10 @@ def check_C09(tier):
         results = run_programs(run, lp, 1, 150, line_level=True)
         judge(run, "C09", results, ("lin", "deadlock"))
     run.cov["programs"] = len(progs)
-    if results and results[0]["distinct"]:
-        r0 = results[0]
-        run.sample({"program": r0["prog"]["name"], "schedule": r0["distinct"][0].get("schedule", [])[:30],
-                    "history": r0["distinct"][0]["history"]})
+    for r0 in results[:4]:
+        if r0["distinct"]:
+            run.sample({"program": r0["prog"]["name"], "schedule": r0["distinct"][-1].get("schedule", [])[:40],
+                        "history": r0["distinct"][-1]["history"], "final": r0["distinct"][-1].get("final")})
     return run.finish()
 
 
@@ -418,9 +418,10 @@ def check_C14(tier):
             r["prog"]["name"] = f"model:root.{kinds[rd[0]]}(read)||root.{kinds[rd[1]]}(read)"
     judge(run, "C14", mres, ("lin", "deadlock", "exit"))
     run.cov["programs"] = len(progs)
-    for r in results[:1]:
+    for r in results[:4]:
         if r["distinct"]:
-            run.sample({"program": r["prog"]["name"], "history": r["distinct"][0]["history"]})
+            run.sample({"program": r["prog"]["name"], "schedule": r["distinct"][-1].get("schedule", [])[:40],
+                        "history": r["distinct"][-1]["history"], "final": r["distinct"][-1].get("final")})
     return run.finish()
 
 
@@ -457,10 +458,14 @@ def check_C13(tier):
         progs = rnd.sample(progs, min(len(progs), 300))
     results = run_programs(run, progs, 2, 60 if tier == "quick" else 300)
     judge(run, "C13", results, ("lin", "deadlock", "exit", "size", "leak"))
+    mres = threads_model(run, "C13", ["C09_WritersLinearizable"], tier, buffered_modes=(True,))
+    judge(run, "C13", [r for r in mres if all(o[1]["op"] != "contains" for ops in r["prog"]["threads"].values() for o in ops)],
+          ("lin", "deadlock", "exit", "size", "leak"))
     run.cov["programs"] = len(progs)
-    for r in results[:1]:
+    for r in results[:4]:
         if r["distinct"]:
-            run.sample({"program": r["prog"]["name"], "history": r["distinct"][0]["history"]})
+            run.sample({"program": r["prog"]["name"], "schedule": r["distinct"][-1].get("schedule", [])[:40],
+                        "history": r["distinct"][-1]["history"], "final": r["distinct"][-1].get("final")})
     return run.finish()
 
 
@@ -513,9 +518,10 @@ def check_C10(tier):
     judge(run, "C10", mres, ("deadlock", "leak"))
     run.cov["programs"] = len(progs)
     sequential_lock_checks(run)
-    for r in results[:1]:
+    for r in results[:4]:
         if r["distinct"]:
-            run.sample({"program": r["prog"]["name"], "schedule": r["distinct"][0].get("schedule", [])[:30]})
+            run.sample({"program": r["prog"]["name"], "schedule": r["distinct"][-1].get("schedule", [])[:40],
+                        "deadlock": r["distinct"][-1].get("deadlock"), "leaks": r["distinct"][-1].get("leaks")})
     return run.finish()
 
 
